@@ -89,8 +89,12 @@ def _get_dtype(pyvalue):
         return np.float32
     elif isinstance(pyvalue, list):
         if pyvalue:
-            # TODO: What to do about lists with mixed value types, like [1, 2.0]?
-            # Should at least produce an error/warning message.
+            if all(isinstance(elem, (bool, int, float)) for elem in pyvalue) and any(
+                type(elem) is not type(pyvalue[0]) for elem in pyvalue
+            ):
+                # Mixed value types, like [1, 2.0]: let numpy infer the element type, as
+                # ir.tensor does for the same literal in the script converter.
+                return np.array(pyvalue).dtype
             return _get_dtype(pyvalue[0])
         raise ValueError("Cannot determine target type for empty list")
     raise TypeError(f"Value of unexpected type {type(pyvalue)}")
